@@ -528,13 +528,14 @@ def _padding(ctx, it, A, B):
         # which case: relation of the arity variables, and int-ness of the head
         poss = {"lt", "eq", "gt"}       # arity(side) ? arity(other)
         is_int = None
-        for t, pol in outer:
+        for t, pol in [x for g_ in outer for x in _flat(g_)]:
             p = pat.cmp_raw(t, pol)
             if p and p[1] in av and p[2] in av and av[p[1]] != av[p[2]]:
                 poss &= _arity_rel(p[0], av[p[1]], side)
         here = list(guards(enclosing_stmt(c)))
         if lam_stmt is not None:
             here += list(guards(lam_stmt))
+        here = [x for g_ in here for x in _flat(g_)]
         for t, pol in here:
             p = pat.cmp_raw(t, pol)
             if p and p[1] in hav and p[2] in hav and hav[p[1]] != hav[p[2]]:
@@ -552,6 +553,27 @@ def _padding(ctx, it, A, B):
                     % (side.fiber_attr, sorted(poss)),
                     text_="padding %s case" % side.tag)
             continue
+        # an exhausted operand has head None: it has no arity, and projecting
+        # an empty fiber through a tuple-building function fails -- the
+        # re-projection must be reached only when both heads are there
+        present = {pat.catom(ctx, it, t, pol, False) for t, pol in
+                   [x for g_ in outer for x in _flat(g_)] +
+                   [x for g_ in guards(enclosing_stmt(c)) for x in _flat(g_)]}
+        need_heads = {pat.A("is not", A.head, "None"), pat.A("is not", B.head, "None")}
+        if host is not it:
+            # inside a helper the guards of the call site count
+            pass
+        if need_heads <= present:
+            ctx.ok(R, it, c, "re-projection only with both heads present",
+                   text_="padding %s %s heads present" % (side.tag, "int" if is_int else "tuple"))
+        else:
+            ctx.bad(R, it, c, "__and__: operand %s is re-projected with padded "
+                    "coordinates although a head may be None (an empty operand): "
+                    "`len(head) if isinstance(head, tuple) else 1` gives an "
+                    "exhausted head arity 1, so `empty & tuple-coordinate fiber` "
+                    "reaches the projection and raises instead of yielding nothing"
+                    % side.fiber_attr,
+                    text_="padding %s %s heads present" % (side.tag, "int" if is_int else "tuple"))
         if len(lam.args.args) != 1:
             ctx.bad(R, it, c, "__and__: padding trans_fn must take one "
                     "coordinate", text_="padding %s lambda" % side.tag)
@@ -585,6 +607,27 @@ def _padding(ctx, it, A, B):
                     % (kind, side.fiber_attr, text(lam)[:60],
                        _lin_text(got)), text_="padding %s %s" % (side.tag, kind))
     ctx.floor(R, n, 4, "ANY-padded projections")
+
+
+def _flat(g):
+    """Atomic conjuncts of one guard.  A positive disjunction whose other
+    alternatives are `<head> is None` (the empty-operand escape: the merge
+    loop does not run then) counts as its remaining alternative."""
+    from ..cfg import flatten_conj
+    out = []
+    for t, pol in flatten_conj(g[0], g[1]):
+        if pol and isinstance(t, ast.BoolOp) and isinstance(t.op, ast.Or):
+            rest = []
+            for v in t.values:
+                q = pat.cmp_raw(v)
+                if q and q[0] == "is" and q[2] == "None" and q[1].isidentifier():
+                    continue
+                rest.append(v)
+            if len(rest) == 1:
+                out.extend(flatten_conj(rest[0], True))
+                continue
+        out.append((t, pol))
+    return out
 
 
 def _arity_rel(op_, left_tag, side):
@@ -805,7 +848,7 @@ def _arity_defs(ctx, f, name):
     for n in f.own_nodes():
         if isinstance(n, ast.FunctionDef) and n.name == name:
             rel = None
-            for t, pol in guards(n):
+            for t, pol in [x for g_ in guards(n) for x in _flat(g_)]:
                 p = pat.cmp_parts(ctx, f, t, pol)
                 if p and {p[1], p[2]} == {"len_a", "len_b"}:
                     if p[0] == "==":
@@ -925,7 +968,11 @@ def _len_rel(ctx, f, d, A, B):
     rels = []
     av = _arity_vars(f, A, B)
     while True:
-        p = pat.cmp_raw(n.test)
+        tst = n.test
+        fl = _flat((tst, True))
+        if len(fl) == 1:
+            tst = fl[0][0]          # `len_a == len_b or <a head is None>`
+        p = pat.cmp_raw(tst)
         r = None
         if p and p[1] in av and p[2] in av and av[p[1]] != av[p[2]]:
             first = av[p[1]]        # side of the left operand
